@@ -85,11 +85,9 @@ def run(m, chk):
     for x in first_work:
         ok = any(r.guard_dominates(ctx, g, x.id) for g in guards)
         chk.ob("GATE-JOIN", f"{OR}: `{seg(x.ast, 50)}` only after the junction test", ok, loc=r.loc(ctx, x.ast), detail="" if ok else f"{OR}: `{seg(x.ast, 60)}` happens before `max(A) != min(B)` ⇒ ValueError has been tested", func=OR, construct="work before junction test")
-    for nid, v in sorted(ctx.ret_sites.items()):
-        heap = ctx.ret_states[nid].heap
-        have, objs = weights_component(r, ctx, v, heap, must=True)
-        # tests whose outcome is fixed on every path to this return: what they read has been consulted for this result
-        consulted = set()
+    def consulted_at(nid):
+        """what the tests whose outcome is fixed on every path to node nid have read"""
+        out = set()
         for t in ctx.cfg.nodes:
             if t.kind != "test":
                 continue
@@ -101,10 +99,23 @@ def run(m, chk):
                 for e in (t.ast.values if allops else [t.ast]):
                     tv = ctx.val(e)
                     if tv is not None:
-                        consulted |= set(tv.all_mdep())
+                        out |= set(tv.all_mdep())
+        return out
+
+    # the weights the join itself gives to the new curve (before the junction is cleaned): value and the tests on the way to the store
+    stores = [n_ for n_ in r.stmt_nodes(ctx) if isinstance(n_.ast, ast.Assign) and any(isinstance(t_, ast.Attribute) and t_.attr == "weights" for t_ in n_.ast.targets)]
+    for nid, v in sorted(ctx.ret_sites.items()):
+        heap = ctx.ret_states[nid].heap
+        have, objs = weights_component(r, ctx, v, heap, must=True)
+        may, _ = weights_component(r, ctx, v, heap, must=False)
+        consulted = consulted_at(nid)
         for who, idx in (("self", 0), (fi.params[1], 1)):
             want = ("PF", idx, CURVE_FIELDS[2])
-            ok = want in have or want in consulted
+            at_store = bool(stores) and all(ctx.val(n_.ast.value) is not None and (R.dep_has(set(ctx.val(n_.ast.value).all_dep()), want) or want in consulted_at(n_.id)) for n_ in stores)
+            # the must-dependence can be lost in the fit behind the degree setter / knot_clean (a branch of fit_curve that keeps the
+            # weights the target already has is merged into the summary although the target there is a fresh curve): then every
+            # store of weights in the join itself has to depend on the operand, and so have the weights that are returned
+            ok = want in have or want in consulted or (at_store and R.dep_has(may, want))
             chk.ob("DEP-MUST", f"{OR}: weights of the joined curve must-depend on {who}.weights", ok, loc=r.loc(ctx, ctx.cfg.nodes[nid].ast),
                    detail="" if ok else f"{OR}: the joined curve is built without reading `{who}.weights` (the result's weights are the constant None on every path): joining the pieces of a rational curve silently gives a polynomial curve",
                    func=OR, construct=f"{'self' if idx == 0 else 'other'}.weights not consulted")
